@@ -18,7 +18,15 @@ TRUSTED = ["np.isclose / 1e-10 / 1e-8 / 1e-5 as the exact rationals of the doubl
            "bisection midpoints of dyadic intervals are exact in binary64 (stream E)"]
 ASSUMPTIONS = ["both classes non-empty", "crossing clauses: no value repeated within or across classes, moderate magnitude; "
                "zero-EER clause: all inputs"]
-TIES = []
+
+
+def _ties():
+    from harness.translate import scores_tr
+    return [{"name": "scores.eer", "translate": scores_tr.translate_eer, "gen_file": "Gen_eer.v", "tie_file": "Tie_eer.v"},
+            {"name": "scores.threshold-setting", "translate": scores_tr.translate_thresholds, "gen_file": "Gen_thr.v", "tie_file": "Tie_thr.v"}]
+
+
+TIES = _ties()
 
 
 def _distinct(rng, n, lo=-40, hi=40, den=4):
